@@ -22,7 +22,7 @@ RULE = (
     "{update(next k, update_params) k in 1..3, overlapping update restating the last 1-2 "
     "observed points with changed values plus new ones, update_predict_single(next k, fh), and "
     "the terminal update_predict(next 4-5, SlidingWindowSplitter(W in {1,2}, step in {1,2}, fh "
-    "in {[1],[2],[1,2]}))} to depth 3 (thorough 4; statsmodels programs 2). A state is the "
+    "in {[1],[2],[1,2]} plus in-sample horizons [0,1], [-1,1], [0]))} to depth 3 (thorough 4; statsmodels programs 2). A state is the "
     "fresh object rebuilt from its history; states are merged on an exact recursive digest of "
     "the object (over-fine, hence sound). In every state: cutoff, remembered data (union, later "
     "wins), repeated predict, refit-equivalence with a fresh fit on the union when the last "
@@ -109,6 +109,11 @@ def _terminals():
             for fh in ([1], [2], [1, 2]):
                 out.append(["UP", W, s, fh, True])
     out.append(["UP", 2, 1, [1, 2], False])
+    # horizons with in-sample steps (window forecasters predict them through a nested
+    # moving-cutoff pass over their own memory)
+    out.append(["UP", 2, 1, [0, 1], True])
+    out.append(["UP", 2, 2, [-1, 1], False])
+    out.append(["UP", 1, 1, [0], True])
     return out
 
 
